@@ -844,9 +844,19 @@ func (fr *Frame) builtin(b *ssa.Builtin, cc *ssa.CallCommon, res ssa.Value) {
 			panic(unsupported("cap of %s", a.T))
 		}
 	case "append":
-		fr.setResult(res, fr.appendSlice(args[0], args[1], rt))
+		// (writes go to the backing array of the first operand, or to a fresh array)
+		fr.storeRoot = cc.Args[0]
+		if v, ok := res.(ssa.Value); ok {
+			fr.storeRootExtra = v
+		}
+		r := fr.appendSlice(args[0], args[1], rt)
+		fr.storeRoot, fr.storeRootExtra = nil, nil
+		fr.setResult(res, r)
 	case "copy":
-		fr.setResult(res, fr.copySlice(args[0], args[1]))
+		fr.storeRoot = addrRoot(cc.Args[0])
+		r := fr.copySlice(args[0], args[1])
+		fr.storeRoot = nil
+		fr.setResult(res, r)
 	case "delete":
 		fr.storeRoot = cc.Args[0]
 		fr.mapDelete(args[0], args[1])
